@@ -74,11 +74,27 @@ judged by the specification on its own. -/
 /-- The positions of `t` and of every statement below it. -/
 def locsBelow (t : Stmt) : List String := (descendants t).map Stmt.location
 
+/-- How the runner renders an error that carries no position (`lib.ErrLine`). -/
+def noPosition : String := "-:0:0"
+
+/-- Where an error raised for the type statement `t` (standing in the (sub)module `root`) is
+positioned when it does not carry the position of a statement of `t`: the library reports an
+identity base it cannot find with the position of the (sub)module statement, or with no position
+(`base` below a type statement, C11's subject); a `require-instance` argument that is not a boolean
+and an extension statement whose prefix is unknown are reported with no position.  Such an error
+ends the resolution of every type statement that names the typedef of `t` before the member types
+of that statement are looked at: it is then the only error of the derivation. -/
+def unplaced (root : Mod) (t : Stmt) : List String :=
+  (if (t.all "base").isEmpty then [] else [root.stmt.location, noPosition]) ++
+  (if t.subs.any (fun s => (s.kw == "require-instance" && s.arg != "true" && s.arg != "false") || s.kw.contains ':')
+   then [noPosition] else [])
+
 open Goyang.Spec.Types in
 /-- The statements of the derivation of the type statement `t` (in module `root`, enclosed by
 `scope`): `t`, its member types, the typedef its name denotes (`bindType`) with that typedef's type
 statement, and so on (the closure of `Spec.Types.Uses`); the positions of these statements and of
-everything below the type statements.  `acc.1`: the type statements visited so far.  Where a name
+everything below the type statements, and the positions `unplaced` lists for an error of a type
+statement that does not name a statement.  `acc.1`: the type statements visited so far.  Where a name
 of the derivation denotes two typedefs (or a typedef without a type) the statements beyond are not
 determined: the mark `?` is added. -/
 def reach (reg : Registry) : Nat → Mod → List Stmt → Stmt → (List Key × List String) → (List Key × List String)
@@ -86,7 +102,7 @@ def reach (reg : Registry) : Nat → Mod → List Stmt → Stmt → (List Key ×
   | fuel + 1, root, scope, t, (vis, out) =>
     let key : Key := (root.seq, t.line, t.col)
     if vis.contains key then (vis, out) else
-    let acc : List Key × List String := (key :: vis, out ++ locsBelow t)
+    let acc : List Key × List String := (key :: vis, out ++ locsBelow t ++ unplaced root t)
     let acc := (t.all "type").foldl (fun acc ut => reach reg fuel root (t :: scope) ut acc) acc
     match bindType reg root scope t.arg with
     | .typedef m td sc =>
@@ -101,7 +117,9 @@ open Goyang.Spec.Types in
 `OK` | `NOCLAIM:<why>` | `ERR <direct> <n> <position>*n` — the type of the typedef is unknown,
 unresolvable or cyclic: an error must be reported; `direct` is the position of the typedef's type
 statement when its own name is unbound (then the error stands exactly there), else `-`; the
-positions are those of the statements of the derivation (some error must stand at one of them). -/
+positions are those of the statements of the derivation (some error must stand at one of them; where
+the derivation holds a `base`, a non-boolean `require-instance` or an extension statement also the
+positions of `unplaced`: the (sub)module statement, no position). -/
 def tdItem (reg : Registry) (m : Mod) (td : Stmt) (up : List Stmt) : String :=
   " D " ++ td.location ++ " " ++
   match up with
